@@ -216,9 +216,13 @@ def reconfig_options(spec):
         return [["params.n_neighbors", "n_neighbors", v] for v in (1, 3, None) if v != spec["params"].get("n_neighbors")] + [["params.class_prior", "class_prior", v] for v in (0.0, 1.0) if v != spec["params"].get("class_prior", 0.0)]
     if k == "skl_clf" and spec["est"] in ("dtc", "dtc_rs", "rf_warm"):
         return [["est_params.max_depth", "estimator__est__max_depth", v] for v in (1, 2, None)]
+    opts = []
     if k in ("nic",):
-        return [["params.kappa_0", "kappa_0", v] for v in (0.5, 2.0)]
-    return []
+        opts += [["params.kappa_0", "kappa_0", v] for v in (0.5, 2.0)]
+    if k in REG_KINDS and spec.get("params", {}).get("missing_label") is None:
+        # from now on the caller marks missing targets with a sentinel instead of NaN
+        opts += [["params.missing_label", "missing_label", -12345.0]]
+    return opts
 
 
 def apply_reconfig(spec, change):
@@ -530,7 +534,7 @@ class LifeCheckBase(Check):
                 cands = [i for i, ds in enumerate(datasets) if len(ds["X"][0]) == cur_d]
                 di = g.pick(cands)
                 ops.append({"op": "partial_fit", "d": di, "fail": bool(can_fail and f.chance(fault_rate))})
-            elif mode == "C13" and r > 0.93 and reconfig_options(spec):
+            elif mode in ("C13", "C15") and r > 0.93 and reconfig_options(spec):
                 # the caller re-configures the living object (set_params is the one legal way to change parameters)
                 ops.append({"op": "set_params", "change": g.pick(reconfig_options(spec))})
             else:
@@ -1241,6 +1245,16 @@ class C15Check(LifeCheckBase):
         cur_dim = None
         events = 0
         for t, op in enumerate(sc["ops"]):
+            if op["op"] == "set_params":
+                # the one legal way to re-configure a living object; the calls that follow see the new setting
+                try:
+                    est.set_params(**{op["change"][1]: op["change"][2]})
+                except Exception as e:
+                    ctx.notes.append(f"set_params raised {e!r}"[:120])
+                    break
+                spec = apply_reconfig(spec, op["change"])
+                ctx.probe("reconfigured")
+                continue
             if op["op"] not in ("fit", "partial_fit"):
                 continue
             ds = sc["datasets"][op["d"]]
